@@ -4,7 +4,7 @@
 id=$1; shift
 cd /verif || exit 2
 git -C /repo diff --quiet || { echo "/repo is not clean"; exit 2; }
-git -C /repo apply seeded/$id/patch.diff || { echo "patch does not apply"; exit 2; }
+git -C /repo apply /verif/seeded/$id/patch.diff || { echo "patch does not apply"; exit 2; }
 mkdir -p seeded/$id/detection
 for p in "$@"; do
   s=$(date +%s)
